@@ -27,7 +27,7 @@ class Ctx:
 
 
 class Obligation:
-    __slots__ = ('rule', 'construct', 'where', 'expr', 'kind', 'ok', 'why', 'verdict', 'finding_id', 'informational')
+    __slots__ = ('rule', 'construct', 'where', 'expr', 'kind', 'ok', 'why', 'verdict', 'finding_id', 'informational', 'func')
 
     def __init__(self, rule, construct, where, expr, kind, ok, why, informational=False):
         self.rule, self.construct, self.where, self.expr, self.kind = rule, construct, where, expr, kind
@@ -35,6 +35,7 @@ class Obligation:
         self.verdict = 'discharged' if ok else 'VIOLATION'
         self.finding_id: Optional[str] = None
         self.informational = informational
+        self.func: Optional[FuncInfo] = None
 
     def key(self) -> Dict[str, str]:
         return {'rule': self.rule, 'construct': self.construct, 'expr': self.expr, 'kind': self.kind}
@@ -82,8 +83,28 @@ class Check:
             sp = structural_path(func_or_construct, node)
             if sp:
                 expr = f'{expr[:300]} @ {sp}'
-        self.obs.append(Obligation(rule, construct, where, expr[:600], kind or rule, bool(ok), why))
+        o = Obligation(rule, construct, where, expr[:600], kind or rule, bool(ok), why)
+        o.func = func_or_construct if isinstance(func_or_construct, FuncInfo) else None
+        self.obs.append(o)
         return bool(ok)
+
+    def _canon_reduced(self, func: Optional[FuncInfo], expr: str):
+        """reduced_key with the callee's receiver canonicalised in ``func`` (local aliases, accessors): a known finding
+        keeps its identity when the receiver is spelled through a local or an accessor."""
+        callee, ctx = reduced_key(expr)
+        if func is None:
+            return callee, ctx
+        try:
+            e = ast.parse(callee, mode='eval').body
+        except SyntaxError:
+            return callee, ctx
+        if isinstance(e, ast.Attribute):
+            try:
+                canon = self.ctx.facts.analyse(func).canon
+                return f'{canon.key(e.value)}.{e.attr}', ctx
+            except Exception:  # noqa: BLE001
+                return callee, ctx
+        return callee, ctx
 
     def info(self, rule: str, what: str, **extra: Any) -> None:
         d = {'rule': rule, 'what': what}
@@ -120,7 +141,8 @@ class Check:
                 # the same construct after a behaviour-preserving restructuring (renamed local, inverted if, flattened
                 # try/else): same rule, function and kind, same callee, same handler context
                 for i, k in enumerate(mine):
-                    if all(k.get(f) == getattr(o, f) for f in ('rule', 'construct', 'kind')) and reduced_key(k.get('expr', '')) == reduced_key(o.expr):
+                    if all(k.get(f) == getattr(o, f) for f in ('rule', 'construct', 'kind')) and (
+                            reduced_key(k.get('expr', '')) == reduced_key(o.expr) or self._canon_reduced(o.func, k.get('expr', '')) == self._canon_reduced(o.func, o.expr)):
                         hit = (i, k)
                         break
             if hit is not None:
